@@ -1,5 +1,349 @@
-/- C11 — property theorems (to be written). -/
-import SoundeventModel.Basic
+/-
+  C11 — Buffering grows a geometry and never leaves the valid domain.
+  Property theorems only.
+
+  `SE.Buf.bufferGeometry lib` models `buffer_geometry`; `lib` is the shapely pipeline
+  (`buffer_shapely_geometry`), not modelled.  Time stamps, intervals and boxes are treated in
+  full (`C11_exact` … `C11_negative_rejected`); for the other six types `C11_shapely_partial`
+  says what follows once the real result passes the validator and the bounds-level
+  post-condition, both of which the check evaluates on every observed result.
+-/
+import SoundeventModel.Buffer
+import SoundeventModel.Bounds
+import Proofs.Lemmas.Bounds
 namespace SE.Proofs.C11
+open SE SE.Buf
+
+private theorem maxf_nonneg : (0 : Rat) ≤ MAXF := by decide +kernel
+
+/-- a negative buffer is rejected, for every geometry type, before anything else happens -/
+theorem C11_negative_rejected (lib : Geom → Rat → Rat → Option Geom) (g : Geom) (tb fb : Rat)
+    (h : tb < 0 ∨ fb < 0) : bufferGeometry lib g tb fb = none := by
+  simp [bufferGeometry, h]
+
+/-- … and only then: with non-negative buffers a valid time stamp / interval / box is never
+    rejected (see `C11_exact`), and the other types are handed to the shapely pipeline -/
+theorem C11_dispatch (lib : Geom → Rat → Rat → Option Geom) (g : Geom) (tb fb : Rat)
+    (h1 : 0 ≤ tb) (h2 : 0 ≤ fb) (hc : closedForm g = false) :
+    bufferGeometry lib g tb fb = lib g tb fb := by
+  have : ¬ (tb < 0 ∨ fb < 0) := by grind
+  cases g <;> simp_all [bufferGeometry, closedForm]
+
+/-- for time stamps, intervals and boxes the result is exactly the interval / box widened by the
+    buffers, clamped at time 0, frequency 0 and `MAXF` -/
+theorem C11_exact (lib : Geom → Rat → Rat → Option Geom) (tb fb : Rat) (h1 : 0 ≤ tb) (h2 : 0 ≤ fb) :
+    (∀ t, valid (.timeStamp t) = true →
+      bufferGeometry lib (.timeStamp t) tb fb = some (.timeInterval (max (t - tb) 0) (t + tb))) ∧
+    (∀ s e, valid (.timeInterval s e) = true →
+      bufferGeometry lib (.timeInterval s e) tb fb = some (.timeInterval (max (s - tb) 0) (e + tb))) ∧
+    (∀ s l e h, valid (.boundingBox s l e h) = true →
+      bufferGeometry lib (.boundingBox s l e h) tb fb =
+        some (.boundingBox (max (s - tb) 0) (max (l - fb) 0) (e + tb) (min (h + fb) MAXF))) := by
+  have hM := maxf_nonneg
+  have hg : ¬ (tb < 0 ∨ fb < 0) := by grind
+  refine ⟨?_, ?_, ?_⟩
+  · intro t hv
+    simp only [valid, okTime, decide_eq_true_eq] at hv
+    simp only [bufferGeometry, hg, if_false, bufferTS, mkInterval]
+    rw [if_neg (by grind), if_neg (by grind)]
+  · intro s e hv
+    simp only [valid, okTime, Bool.and_eq_true, decide_eq_true_eq] at hv
+    simp only [bufferGeometry, hg, if_false, bufferTI, mkInterval]
+    rw [if_neg (by grind), if_neg (by grind)]
+  · intro s l e h hv
+    simp only [valid, okPt, Bool.and_eq_true, decide_eq_true_eq] at hv
+    have c1 : ¬ (max (s - tb) 0 < 0) := by grind
+    have c2 : ¬ (max (l - fb) 0 < 0 ∨ max (l - fb) 0 > MAXF) := by grind
+    have c3 : ¬ (e + tb < 0) := by grind
+    have c4 : ¬ (min (h + fb) MAXF < 0 ∨ min (h + fb) MAXF > MAXF) := by grind
+    have c5 : ¬ (max (s - tb) 0 > e + tb) := by grind
+    have c6 : ¬ (max (l - fb) 0 > min (h + fb) MAXF) := by grind
+    simp only [bufferGeometry, hg, if_false, bufferBB, mkBox, c1, c2, c3, c4, c5, c6]
+
+/-- the closed forms never leave the valid domain: the result is again a valid geometry -/
+theorem C11_valid (lib : Geom → Rat → Rat → Option Geom) (g : Geom) (tb fb : Rat)
+    (h1 : 0 ≤ tb) (h2 : 0 ≤ fb) (hc : closedForm g = true) (hv : valid g = true) :
+    ∃ r, bufferGeometry lib g tb fb = some r ∧ valid r = true := by
+  have hM := maxf_nonneg
+  obtain ⟨e1, e2, e3⟩ := C11_exact lib tb fb h1 h2
+  cases g with
+  | timeStamp t =>
+    refine ⟨_, e1 t hv, ?_⟩
+    simp only [valid, okTime, decide_eq_true_eq] at hv
+    simp only [valid, okTime, Bool.and_eq_true, decide_eq_true_eq]; grind
+  | timeInterval s e =>
+    refine ⟨_, e2 s e hv, ?_⟩
+    simp only [valid, okTime, Bool.and_eq_true, decide_eq_true_eq] at hv
+    simp only [valid, okTime, Bool.and_eq_true, decide_eq_true_eq]; grind
+  | boundingBox s l e h =>
+    refine ⟨_, e3 s l e h hv, ?_⟩
+    simp only [valid, okPt, Bool.and_eq_true, decide_eq_true_eq] at hv
+    simp only [valid, okPt, Bool.and_eq_true, decide_eq_true_eq]; grind
+  | _ => simp [closedForm] at hc
+
+/-- the result contains the original, as sets of (time, frequency) points, and lies inside the
+    valid domain -/
+theorem C11_contains (lib : Geom → Rat → Rat → Option Geom) (g r : Geom) (tb fb : Rat)
+    (h1 : 0 ≤ tb) (h2 : 0 ≤ fb) (hc : closedForm g = true) (hv : valid g = true)
+    (hr : bufferGeometry lib g tb fb = some r) :
+    (∀ p, mem p g → mem p r) ∧ (∀ p, mem p r → inDomain p) := by
+  have hM := maxf_nonneg
+  obtain ⟨e1, e2, e3⟩ := C11_exact lib tb fb h1 h2
+  cases g with
+  | timeStamp t =>
+    rw [e1 t hv] at hr; obtain rfl := Option.some.inj hr
+    simp only [valid, okTime, decide_eq_true_eq] at hv
+    constructor <;> intro p hp <;> simp only [mem, inDomain] at * <;> grind
+  | timeInterval s e =>
+    rw [e2 s e hv] at hr; obtain rfl := Option.some.inj hr
+    simp only [valid, okTime, Bool.and_eq_true, decide_eq_true_eq] at hv
+    constructor <;> intro p hp <;> simp only [mem, inDomain] at * <;> grind
+  | boundingBox s l e h =>
+    rw [e3 s l e h hv] at hr; obtain rfl := Option.some.inj hr
+    simp only [valid, okPt, Bool.and_eq_true, decide_eq_true_eq] at hv
+    constructor <;> intro p hp <;> simp only [mem, inDomain] at * <;> grind
+  | _ => simp [closedForm] at hc
+
+/-- the result is *all* of the widened original inside the domain: a point of the domain lies in
+    the result iff it is within the buffers of the original's extent (so nothing is lost at the
+    edges and nothing beyond the buffers is added) -/
+theorem C11_result_is_widened_extent (lib : Geom → Rat → Rat → Option Geom) (g r : Geom) (b : Bounds)
+    (tb fb : Rat) (h1 : 0 ≤ tb) (h2 : 0 ≤ fb) (hc : closedForm g = true) (hv : valid g = true)
+    (hb : g.bounds = some b) (hr : bufferGeometry lib g tb fb = some r) (p : Pt) (hp : inDomain p) :
+    mem p r ↔ (b.st - tb ≤ p.1 ∧ p.1 ≤ b.en + tb ∧
+      (match g with
+       | .boundingBox .. => b.lo - fb ≤ p.2 ∧ p.2 ≤ b.hi + fb
+       | _ => True)) := by
+  have hM := maxf_nonneg
+  obtain ⟨e1, e2, e3⟩ := C11_exact lib tb fb h1 h2
+  cases g with
+  | timeStamp t =>
+    rw [e1 t hv] at hr; obtain rfl := Option.some.inj hr
+    simp only [Geom.bounds, Geom.boundPts, ptsBounds, List.foldl, Option.some.injEq] at hb
+    subst hb
+    simp only [valid, okTime, decide_eq_true_eq] at hv
+    simp only [mem, inDomain] at *; grind
+  | timeInterval s e =>
+    rw [e2 s e hv] at hr; obtain rfl := Option.some.inj hr
+    simp only [Geom.bounds, Geom.boundPts, ptsBounds, List.foldl, Option.some.injEq] at hb
+    subst hb
+    simp only [valid, okTime, Bool.and_eq_true, decide_eq_true_eq] at hv
+    simp only [mem, inDomain] at *; grind
+  | boundingBox s l e h =>
+    rw [e3 s l e h hv] at hr; obtain rfl := Option.some.inj hr
+    simp only [Geom.bounds, Geom.boundPts, ptsBounds, List.foldl, Option.some.injEq] at hb
+    subst hb
+    simp only [valid, okPt, Bool.and_eq_true, decide_eq_true_eq] at hv
+    simp only [mem, inDomain] at *; grind
+  | _ => simp [closedForm] at hc
+
+/-- the bounds of the result extend the original's: every side moved by at least the buffer
+    or reached the edge of the domain (`bufferPost`, the same predicate the run-time monitor
+    evaluates on shapely's results) — here they move by *exactly* the buffer or to the edge -/
+theorem C11_bounds_extend (lib : Geom → Rat → Rat → Option Geom) (g r : Geom) (b : Bounds) (tb fb : Rat)
+    (h1 : 0 ≤ tb) (h2 : 0 ≤ fb) (hc : closedForm g = true) (hv : valid g = true)
+    (hb : g.bounds = some b) (hr : bufferGeometry lib g tb fb = some r) :
+    ∃ rb, r.bounds = some rb ∧ bufferPost b tb fb rb = true ∧
+      rb.st = max (b.st - tb) 0 ∧ rb.en = b.en + tb ∧
+      (match g with
+       | .boundingBox .. => rb.lo = max (b.lo - fb) 0 ∧ rb.hi = min (b.hi + fb) MAXF
+       | _ => rb.lo = 0 ∧ rb.hi = MAXF) := by
+  have hM := maxf_nonneg
+  obtain ⟨e1, e2, e3⟩ := C11_exact lib tb fb h1 h2
+  cases g with
+  | timeStamp t =>
+    rw [e1 t hv] at hr; obtain rfl := Option.some.inj hr
+    simp only [Geom.bounds, Geom.boundPts, ptsBounds, List.foldl, Option.some.injEq] at hb
+    subst hb
+    simp only [valid, okTime, decide_eq_true_eq] at hv
+    refine ⟨⟨max (t - tb) 0, 0, t + tb, MAXF⟩, ?_, ?_, ?_⟩
+    · simp only [Geom.bounds, Geom.boundPts, ptsBounds, List.foldl, Option.some.injEq, Bounds.mk.injEq]; grind
+    · simp only [bufferPost, bufferPostTol, slack, Bool.and_eq_true, decide_eq_true_eq]; grind
+    · grind
+  | timeInterval s e =>
+    rw [e2 s e hv] at hr; obtain rfl := Option.some.inj hr
+    simp only [Geom.bounds, Geom.boundPts, ptsBounds, List.foldl, Option.some.injEq] at hb
+    subst hb
+    simp only [valid, okTime, Bool.and_eq_true, decide_eq_true_eq] at hv
+    refine ⟨⟨max (s - tb) 0, 0, e + tb, MAXF⟩, ?_, ?_, ?_⟩
+    · simp only [Geom.bounds, Geom.boundPts, ptsBounds, List.foldl, Option.some.injEq, Bounds.mk.injEq]; grind
+    · simp only [bufferPost, bufferPostTol, slack, Bool.and_eq_true, decide_eq_true_eq]; grind
+    · grind
+  | boundingBox s l e h =>
+    rw [e3 s l e h hv] at hr; obtain rfl := Option.some.inj hr
+    simp only [Geom.bounds, Geom.boundPts, ptsBounds, List.foldl, Option.some.injEq] at hb
+    subst hb
+    simp only [valid, okPt, Bool.and_eq_true, decide_eq_true_eq] at hv
+    refine ⟨⟨max (s - tb) 0, max (l - fb) 0, e + tb, min (h + fb) MAXF⟩, ?_, ?_, ?_⟩
+    · simp only [Geom.bounds, Geom.boundPts, ptsBounds, List.foldl, Option.some.injEq, Bounds.mk.injEq]; grind
+    · simp only [bufferPost, bufferPostTol, slack, Bool.and_eq_true, decide_eq_true_eq]; grind
+    · grind
+  | _ => simp [closedForm] at hc
+
+/-- larger buffers give supersets -/
+theorem C11_monotone (lib : Geom → Rat → Rat → Option Geom) (g r r' : Geom) (tb fb tb' fb' : Rat)
+    (h1 : 0 ≤ tb) (h2 : 0 ≤ fb) (ht : tb ≤ tb') (hf : fb ≤ fb')
+    (hc : closedForm g = true) (hv : valid g = true)
+    (hr : bufferGeometry lib g tb fb = some r) (hr' : bufferGeometry lib g tb' fb' = some r') :
+    ∀ p, mem p r → mem p r' := by
+  have hM := maxf_nonneg
+  obtain ⟨e1, e2, e3⟩ := C11_exact lib tb fb h1 h2
+  obtain ⟨e1', e2', e3'⟩ := C11_exact lib tb' fb' (by grind) (by grind)
+  cases g with
+  | timeStamp t =>
+    rw [e1 t hv] at hr; obtain rfl := Option.some.inj hr; rw [e1' t hv] at hr'; obtain rfl := Option.some.inj hr'
+    clear e1 e2 e3 e1' e2' e3'
+    simp only [valid, okTime, decide_eq_true_eq] at hv
+    intro p hp; simp only [mem] at *; grind
+  | timeInterval s e =>
+    rw [e2 s e hv] at hr; obtain rfl := Option.some.inj hr; rw [e2' s e hv] at hr'; obtain rfl := Option.some.inj hr'
+    clear e1 e2 e3 e1' e2' e3'
+    simp only [valid, okTime, Bool.and_eq_true, decide_eq_true_eq] at hv
+    intro p hp; simp only [mem] at *; grind
+  | boundingBox s l e h =>
+    rw [e3 s l e h hv] at hr; obtain rfl := Option.some.inj hr; rw [e3' s l e h hv] at hr'; obtain rfl := Option.some.inj hr'
+    clear e1 e2 e3 e1' e2' e3'
+    simp only [valid, okPt, Bool.and_eq_true, decide_eq_true_eq] at hv
+    intro p hp; simp only [mem] at *; grind
+  | _ => simp [closedForm] at hc
+
+/-- a zero buffer changes nothing (time stamps become the degenerate interval `[t, t]`) -/
+theorem C11_zero_buffer (lib : Geom → Rat → Rat → Option Geom) (g r : Geom)
+    (hc : closedForm g = true) (hv : valid g = true) (hr : bufferGeometry lib g 0 0 = some r) :
+    ∀ p, mem p r ↔ mem p g := by
+  have hM := maxf_nonneg
+  obtain ⟨e1, e2, e3⟩ := C11_exact lib 0 0 (Rat.le_refl) (Rat.le_refl)
+  cases g with
+  | timeStamp t =>
+    rw [e1 t hv] at hr; obtain rfl := Option.some.inj hr
+    simp only [valid, okTime, decide_eq_true_eq] at hv
+    intro p; simp only [mem]; grind
+  | timeInterval s e =>
+    rw [e2 s e hv] at hr; obtain rfl := Option.some.inj hr
+    simp only [valid, okTime, Bool.and_eq_true, decide_eq_true_eq] at hv
+    intro p; simp only [mem]; grind
+  | boundingBox s l e h =>
+    rw [e3 s l e h hv] at hr; obtain rfl := Option.some.inj hr
+    simp only [valid, okPt, Bool.and_eq_true, decide_eq_true_eq] at hv
+    intro p; simp only [mem]; grind
+  | _ => simp [closedForm] at hc
+
+/-
+  Full statement for the six types buffered by shapely (NOT proved: GEOS buffering and the float
+  scale–buffer–unscale–clip pipeline are not modelled):
+
+    valid g → 0 ≤ tb → 0 ≤ fb → closedForm g = false →
+      ∃ r, lib g tb fb = some r ∧ valid r ∧ g ⊆ r ∧ bufferPost (bounds g) tb fb (bounds r) ∧
+           (tb ≤ tb' → fb ≤ fb' → r ⊆ lib g tb' fb')
+
+  Proved part: the dispatch hands exactly these types to the pipeline with the buffers
+  unchanged, and *if* the pipeline's result passes the validator and the bounds-level
+  post-condition (both evaluated by the check on every observed result) then every point of the
+  result is inside the domain, the result's bounds contain the original's, and every side moved
+  outwards by at least the buffer or sits on the edge of the domain.  Containment of the
+  polygonal result and monotonicity are asked of shapely (`covers`) by the harness.
+-/
+theorem C11_shapely_partial (lib : Geom → Rat → Rat → Option Geom) (g r : Geom) (b rb : Bounds)
+    (tb fb : Rat) (h1 : 0 ≤ tb) (h2 : 0 ≤ fb) (hc : closedForm g = false) (hv : valid g = true)
+    (hb : g.bounds = some b) (hr : bufferGeometry lib g tb fb = some r)
+    (hpoly : (∃ rings, r = .polygon rings) ∨ (∃ ps, r = .multiPolygon ps))
+    (hvr : valid r = true) (hrb : r.bounds = some rb) (hpost : bufferPost b tb fb rb = true) :
+    lib g tb fb = some r ∧
+    (∀ p ∈ polyPts r, inDomain p) ∧
+    (rb.st ≤ b.st ∧ rb.lo ≤ b.lo ∧ b.en ≤ rb.en ∧ b.hi ≤ rb.hi) ∧
+    (rb.st ≤ b.st - tb ∨ rb.st = 0) ∧ (rb.lo ≤ b.lo - fb ∨ rb.lo = 0) ∧
+    b.en + tb ≤ rb.en ∧ (b.hi + fb ≤ rb.hi ∨ rb.hi = MAXF) := by
+  have hM := maxf_nonneg
+  have hd := C11_dispatch lib g tb fb h1 h2 hc
+  refine ⟨by rw [← hd]; exact hr, ?_, ?_⟩
+  · -- every vertex of the validated result is inside the domain
+    intro p hp
+    rcases hpoly with ⟨rings, rfl⟩ | ⟨ps, rfl⟩
+    · simp only [valid, okPoly, Bool.and_eq_true, List.all_eq_true] at hvr
+      simp only [polyPts, List.mem_flatten] at hp
+      obtain ⟨ring, hring, hpr⟩ := hp
+      have := hvr.2 ring hring
+      simp only [okRing, Bool.and_eq_true, List.all_eq_true] at this
+      have := this.2 p hpr
+      simpa [okPt, inDomain, and_assoc] using this
+    · simp only [valid, Bool.and_eq_true, List.all_eq_true] at hvr
+      simp only [polyPts, List.mem_flatten, List.mem_map] at hp
+      obtain ⟨l, ⟨rings, hrs, rfl⟩, hpl⟩ := hp
+      obtain ⟨ring, hring, hpr⟩ := List.mem_flatten.mp hpl
+      have := hvr.2 rings hrs
+      simp only [okPoly, Bool.and_eq_true, List.all_eq_true] at this
+      have := this.2 ring hring
+      simp only [okRing, Bool.and_eq_true, List.all_eq_true] at this
+      have := this.2 p hpr
+      simpa [okPt, inDomain, and_assoc] using this
+  · -- the original is valid, so its own bounds are inside the domain and clamping cuts nothing
+    have hbd : 0 ≤ b.st ∧ 0 ≤ b.lo ∧ b.hi ≤ MAXF := by
+      have hall : ∀ p ∈ g.boundPts, 0 ≤ p.1 ∧ 0 ≤ p.2 ∧ p.2 ≤ MAXF := by
+        intro p hp
+        cases g with
+        | timeStamp t => simp [closedForm] at hc
+        | timeInterval s e => simp [closedForm] at hc
+        | boundingBox s l e h => simp [closedForm] at hc
+        | point t f =>
+          simp only [Geom.boundPts, List.mem_singleton] at hp; subst hp
+          simpa [valid, okPt, and_assoc] using hv
+        | lineString pts =>
+          simp only [valid, Bool.and_eq_true, List.all_eq_true] at hv
+          simpa [okPt, and_assoc] using hv.1.2 p hp
+        | multiPoint pts =>
+          simp only [valid, Bool.and_eq_true, List.all_eq_true] at hv
+          simpa [okPt, and_assoc] using hv.2 p hp
+        | multiLineString ls =>
+          simp only [valid, Bool.and_eq_true, List.all_eq_true] at hv
+          simp only [Geom.boundPts, List.mem_flatten] at hp
+          obtain ⟨l, hl, hpl⟩ := hp
+          simpa [okPt, and_assoc] using (hv.2 l hl).1.2 p hpl
+        | polygon rings =>
+          simp only [valid, okPoly, Bool.and_eq_true, List.all_eq_true] at hv
+          simp only [Geom.boundPts] at hp
+          cases rings with
+          | nil => simp at hp
+          | cons shell holes =>
+            simp only [List.headD_cons] at hp
+            have := hv.2 shell (by simp)
+            simp only [okRing, Bool.and_eq_true, List.all_eq_true] at this
+            simpa [okPt, and_assoc] using this.2 p hp
+        | multiPolygon ps =>
+          simp only [valid, Bool.and_eq_true, List.all_eq_true] at hv
+          simp only [Geom.boundPts, List.mem_flatten, List.mem_map] at hp
+          obtain ⟨l, ⟨rings, hrs, rfl⟩, hpl⟩ := hp
+          have := hv.2 rings hrs
+          simp only [okPoly, Bool.and_eq_true, List.all_eq_true] at this
+          cases rings with
+          | nil => simp at hpl
+          | cons shell holes =>
+            simp only [List.headD_cons] at hpl
+            have := this.2 shell (by simp)
+            simp only [okRing, Bool.and_eq_true, List.all_eq_true] at this
+            simpa [okPt, and_assoc] using this.2 p hpl
+      obtain ⟨_, ⟨p1, hp1, e1⟩, ⟨p2, hp2, e2⟩, _, ⟨p4, hp4, e4⟩⟩ :=
+        SE.Proofs.Lemmas.Bounds.ptsBounds_isBoundsOf _ _ hb
+      have a1 := hall p1 hp1; have a2 := hall p2 hp2; have a4 := hall p4 hp4
+      grind
+    simp only [bufferPost, bufferPostTol, slack, Bool.and_eq_true, decide_eq_true_eq] at hpost
+    grind
+
+-- non-vacuity: concrete instances at the edges of the domain, buffers 0 and larger than the domain
+example : bufferGeometry (fun _ _ _ => none) (.timeStamp 1) 3 7 = some (.timeInterval 0 4) := by decide +kernel
+example : bufferGeometry (fun _ _ _ => none) (.timeInterval 0 2) 0 0 = some (.timeInterval 0 2) := by decide +kernel
+example : bufferGeometry (fun _ _ _ => none) (.boundingBox 1 10 2 4999990) 5 100
+    = some (.boundingBox 0 0 7 5000000) := by decide +kernel
+example : bufferGeometry (fun _ _ _ => none) (.boundingBox 1 10 2 20) 0 6000000
+    = some (.boundingBox 1 0 2 5000000) := by decide +kernel
+example : bufferGeometry (fun _ _ _ => none) (.boundingBox 1 10 2 20) (-1) 0 = none := by decide +kernel
+example : valid (.boundingBox 1 10 2 20) = true ∧ closedForm (.boundingBox 1 10 2 20) = true := by decide +kernel
+example : valid (.polygon [[(0, 0), (3, 0), (3, 5000000), (0, 0)]]) = true := by decide +kernel
+example : bufferPost ⟨1, 10, 2, 20⟩ 5 100 ⟨0, 0, 7, 120⟩ = true := by decide +kernel
+example : bufferPost ⟨1, 10, 2, 20⟩ 5 100 ⟨0, 0, 13/2, 120⟩ = false := by decide +kernel
+-- the hypotheses of `C11_shapely_partial` are satisfiable: a point buffered to a box-shaped polygon
+example : valid (.point 1 10) = true ∧ closedForm (.point 1 10) = false ∧
+    valid (.polygon [[(0, 0), (6, 0), (6, 110), (0, 110), (0, 0)]]) = true ∧
+    (Geom.polygon [[(0, 0), (6, 0), (6, 110), (0, 110), (0, 0)]]).bounds = some ⟨0, 0, 6, 110⟩ ∧
+    bufferPost ⟨1, 10, 1, 10⟩ 5 100 ⟨0, 0, 6, 110⟩ = true := by decide +kernel
 
 end SE.Proofs.C11
